@@ -59,13 +59,18 @@ def pure_direct(case, obs):
         what = "%s(%s) on %s" % (OPNAME.get(calls[i][0], calls[i][0]), _short(calls[i][1]), _schema_text(pl))
         if "differs" in it:
             return ("%d evaluations of %s on freshly built, equal arguments did not all give the same result "
-                    "(the result depends on map iteration order)" % (20, what))
+                    "(the result depends on map iteration order - or on what the CALLER did with an earlier result: after each "
+                    "result is printed the harness writes into every list and map of it, as a step handler may; a result that "
+                    "shares memory with the schema's decoded defaults then comes back changed)" % (20, what))
         if "mutated" in it:
             return "%s modified the argument passed to it" % what
     for x in o[1:]:
         if isinstance(x, list) and x[0] == "state" and x[1] == "changed":
             return ("after the history %s the decoded defaults (GetDefaults) of the schema %s differ from those before it / of a "
-                    "freshly built instance: a call wrote into the schema" % (_short(pl[-1], 500), _schema_text(pl)))
+                    "freshly built instance, or a FILLED cell of the unit caches of one of its units definitions (the multipliers "
+                    "sorted largest first, the compiled parser expression with its group index - looked at after every call, "
+                    "rejected ones included) no longer holds what a first use on a fresh instance puts there: a call wrote into the "
+                    "schema" % (_short(pl[-1], 500), _schema_text(pl)))
         if isinstance(x, list) and x[0] == "desc" and x[1] == "changed":
             return ("during the history %s (followed by Unserialize of the empty map and of each member given as the empty map) the "
                     "SELF-DESCRIPTION of the schema %s - the flags, default text and rule lists (required_if / required_if_not / "
@@ -387,7 +392,19 @@ def register(props):
     props.PROPS["C12"] = {
         "theory": "Properties/C12.v",
         "families": ["c12pure", "c12struct"],
-        "rule": "[desc: the SELF-DESCRIPTION of the instance - flags, default text and rule lists (required_if / required_if_not / conflicts, "
+        "rule": "[result aliasing: after every successful Unserialize / Serialize the harness writes into every []any / map[string]any / "
+                "map[any]any of the RESULT (the caller's own value): GetDefaults (`state`), the next evaluation of the same call "
+                "(`same`) and the used-vs-fresh comparison (`after`) must not see it] "
+                "[unit caches: `state` also covers the two lazily filled caches of every units definition of the instance (sorted "
+                "multipliers, compiled expression + group index), read passively by reflection after EVERY call (rejected ones "
+                "included): a filled cell must hold what a first use on a separate fresh instance computes; `after` also compares "
+                "Format{Short,Long}{Int,Float} of fixed probe numbers of every units definition (used vs untouched instance) and "
+                "evaluates every call once on an instance that has seen NOTHING (not even the earlier calls of the comparison "
+                "loop); 36 (thorough 600) unit-bearing FLOAT / integer schemas (built-in and generated definitions; bare, as an "
+                "object property, as list items) with histories in which every text occurs before and after a REJECTED unit text, "
+                "among them multi-term texts with a total in 2^53..2^62, odd small terms and a fractional base count (the exact "
+                "sum is not a float64: the result depends on the order of addition)] "
+                "[desc: the SELF-DESCRIPTION of the instance - flags, default text and rule lists (required_if / required_if_not / conflicts, "
                 "in the order the schema holds them) of every property of every object, SelfSerialize of a scope - is taken before the "
                 "first call, after EVERY call of the history (failing ones included), after the probes and on a fresh instance; "
                 "c12pure also runs 40 objects of 3..5 properties whose rule lists name up to three properties in ANY order with "
